@@ -1,0 +1,16 @@
+//go:build !verif
+
+package skiplist
+
+import "unsafe"
+
+// Simulation hooks (build tag verif). With the tag off they are empty and
+// inlined away.
+
+func vyield(site int)              {}
+func vblock(site int) uintptr      { return 0 }
+func venter(site int, tok uintptr) {}
+func vstart(site int, id int)      {}
+func vexit()                       {}
+func vlock(mu unsafe.Pointer)      {}
+func vunlock(mu unsafe.Pointer)    {}
